@@ -237,6 +237,20 @@ CHECKS.append({
             "oracle (eager and jit, float32); gammaln, interpax and FFT internals are outside the model.",
 })
 
+CHECKS.append({
+    "property_id": "C13",
+    "design_ref": "DESIGN.md 5 (C13), 7",
+    "technique": "Coq proof (string reasoning for arbitrary suffixes; reuse of the C14 loop theorems) about find_MAP's filtering / regrouping regenerated from "
+                 "pysersic.py + vm_compute correspondence with real find_MAP calls whose trainer is short-circuited; implementation-side oracle on real fits",
+    "text": "PARTIAL.  Seven theorems (Props/C13.v) decide WHAT is returned: every profile/sky/nuisance parameter (+ any marker-free suffix) is returned "
+            "rounded, internal *_base/_auto_loc and likelihood sites are not, 'model' is the image, AutoDelta's names are inverted, FitMulti regroups under "
+            "the prior's own injective key, the state read is the first lowest-loss state of the final round trained at lr_init*decay^r.  That the "
+            "returned point has posterior density >= truth - 0.5, is a local maximum, and is bitwise repeatable is NOT decided by a theorem.",
+    "note": "Trusted: Coq kernel + vm_compute; translator unit FindMAP; numpyro condition/trace.  Optimiser quality and XLA determinism are properties of "
+            "Adam on a non-convex objective and of the runtime: only the implementation-side oracle (one real fit in quick, six in thorough) exercises "
+            "them; a violation there is reported with the failing synthetic data set as replay.",
+})
+
 _PENDING = "check not built yet in this session (build order in DESIGN.md section 9); will be claimed once its Coq model, theorems and tie exist"
 NOT_APPLICABLE = [
     {"property_id": "C%02d" % i, "reason": _PENDING}
